@@ -137,6 +137,7 @@ func baseline(dec string) uint64 {
 
 func devA() device.ID { return devID(0x41) }
 func devB() device.ID { return devID(0x61) }
+func devC() device.ID { return devID(0x51) }
 
 func serveOne(l *c2.Listener, in []byte) *c2.VerifC04Conn {
 	c := &c2.VerifC04Conn{In: bytes.NewReader(in)}
@@ -156,6 +157,10 @@ func decodeHandle(kind string, p *profile, in []byte) ([]uint64, string, error) 
 		serveOne(l, h)
 		if !c2.VerifC04Registered(l, devA()) {
 			return nil, "setup:the valid hello did not register", nil
+		}
+		// a second registered device, so that a tag can name another Session
+		if h2, err := c2.VerifC04Encode(p.w, p.t, c2.VerifC04Hello(devC(), false)); err == nil {
+			serveOne(l, h2)
 		}
 	}
 	before := c2.VerifC04SessionCount(l)
@@ -231,14 +236,30 @@ func decodeMore(dec string, in []byte) ([]uint64, string, error) {
 		if !c2.VerifC04Registered(l, devA()) {
 			return nil, "setup:the valid hello did not register", nil
 		}
-		c := data.NewChunk(in)
-		k := 0
+		// every Packet is decoded from its OWN buffer of exactly its size, as Packets of separate
+		// connections are: a sub-packet is a window into its container's buffer (Chunk.Bytes
+		// reslices) and a completed fragment group is appended in place behind its head
+		c := data.NewChunk(append([]byte{}, in...))
+		k, off := 0, 0
 		for c.Remaining() > 0 {
-			p := new(com.Packet)
-			if err := p.UnmarshalStream(c); err != nil {
+			var probe com.Packet
+			if err := probe.UnmarshalStream(c); err != nil {
 				return nil, "", err
 			}
-			if k, err = c2.VerifC04ReceiveFrags(l, devA(), p); err != nil {
+			end := len(in) - c.Remaining()
+			own := make([]byte, end-off)
+			copy(own, in[off:end])
+			keep := append([]byte{}, own...)
+			off = end
+			p := new(com.Packet)
+			if err := p.UnmarshalStream(data.NewChunk(own)); err != nil {
+				return nil, "", err
+			}
+			k, err = c2.VerifC04ReceiveFrags(l, devA(), p)
+			if !bytes.Equal(own, keep) {
+				lastTerm = "ALIAS"
+			}
+			if err != nil {
 				return nil, "", err
 			}
 			c2.VerifC04Pump(l)
@@ -295,7 +316,14 @@ func decodeMore(dec string, in []byte) ([]uint64, string, error) {
 		if err := p.UnmarshalStream(c); err != nil {
 			return nil, "", err
 		}
+		keep := append([]byte{}, in...)
 		k, err := c2.VerifC04ReceiveFrags(l, devA(), &p)
+		if !bytes.Equal(in, keep) {
+			// receive() wrote into the buffer it is decoding (a fragment group completed inside the
+			// container and was appended in place behind its head): what the rest of the walk saw is
+			// not the input; the model's oracle-free instance does not apply to this case
+			lastTerm = "ALIAS"
+		}
 		if err != nil {
 			return nil, "", err
 		}
@@ -463,6 +491,42 @@ func rewrap(p *profile, plain []byte) []byte {
 	return append([]byte{}, b.Bytes()...)
 }
 
+// wide8: every plausible length prefix of m (class byte 0, or 1 / 3 with a length that fits) at or
+// behind `from` is replaced by the 8-byte form (class 7) with boundary lengths, among them the
+// exact one, MaxSlice and MaxSlice+1, and values that are negative as int / int64.
+func wide8(m []byte, from int) [][]byte {
+	var r [][]byte
+	for p := from; p < len(m); p++ {
+		size, exact := 0, uint64(0)
+		switch {
+		case m[p] == 0:
+			size = 1
+		case m[p] == 1 && p+1 < len(m) && p+2+int(m[p+1]) <= len(m) && m[p+1] > 0:
+			size, exact = 2, uint64(m[p+1])
+		case m[p] == 3 && p+2 < len(m) && p+3+(int(m[p+1])<<8|int(m[p+2])) <= len(m):
+			size, exact = 3, uint64(m[p+1])<<8|uint64(m[p+2])
+		default:
+			continue
+		}
+		vals := []uint64{1, exact, 1<<42 + 1, 1<<63 - 1, 1 << 63, 1<<63 + exact, 1<<64 - 1}
+		if thorough {
+			vals = append(vals, 0, exact+1, 1<<31-1, 1<<31, 1<<32, 1<<42, 1<<62, 1<<63+1)
+		}
+		for _, v := range vals {
+			for _, cls := range []byte{7, 8} {
+				if cls == 8 && !(thorough || v == 1<<63) {
+					continue
+				}
+				x := append([]byte{}, m[:p]...)
+				x = append(x, cls, byte(v>>56), byte(v>>48), byte(v>>40), byte(v>>32), byte(v>>24), byte(v>>16), byte(v>>8), byte(v))
+				x = append(x, m[p+size:]...)
+				r = append(r, x)
+			}
+		}
+	}
+	return r
+}
+
 func runHandle(kind string, p *profile, in []byte, class string) {
 	run(kind+":"+p.name, in, class)
 }
@@ -546,6 +610,64 @@ func generateMore(corpus bool) {
 				x[32+rng.Intn(len(x)-32)] = byte(rng.U64())
 			}
 			runHandle("hr", p, rewrap(p, x), "random")
+		}
+	}
+	// ---- tags (conn.resolve) on a hello and on post-registration Packets through the real handle():
+	// unknown, own, another registered Session's, duplicates, many; a zero tag is refused by the reader
+	{
+		own, other := devA().Hash(), devC().Hash()
+		tagSets := [][]uint32{{0x01020304}, {own}, {other}, {other, other}, {own, own, other}, {0x01020304, other, own, 0xfffffffe, other},
+			{1}, {0xffffffff}, {other, 0}, {0}}
+		many := make([]uint32, 300)
+		for i := range many {
+			many[i] = uint32(0x10000 + i)
+		}
+		many[150], many[299] = other, own
+		tagSets = append(tagSets, many)
+		for pi, p := range profiles {
+			if !(thorough || pi == 0 || pi == 1 || p.name == "tdns" || p.name == "aes+hex+tb64s") {
+				continue
+			}
+			for _, ts := range tagSets {
+				for _, name := range []string{"hello", "ping", "data", "multi", "frag0", "multidev"} {
+					n := pk[name]()
+					n.Tags = ts
+					kind := "hr"
+					if name == "hello" {
+						kind = "hs"
+					}
+					var b bytes.Buffer
+					if err := n.Marshal(&b); err != nil { // a zero tag: the writer refuses it; patch it in behind the writer
+						n.Tags = append([]uint32{}, ts...)
+						for i := range n.Tags {
+							if n.Tags[i] == 0 {
+								n.Tags[i] = 0x7e7e7e7e
+							}
+						}
+						b.Reset()
+						n.Marshal(&b)
+						x := bytes.ReplaceAll(b.Bytes(), []byte{0x7e, 0x7e, 0x7e, 0x7e}, []byte{0, 0, 0, 0})
+						runHandle(kind, p, rewrap(p, append([]byte{}, x...)), "tags")
+						continue
+					}
+					w := rewrap(p, append([]byte{}, b.Bytes()...))
+					runHandle(kind, p, w, "tags")
+					if kind == "hr" {
+						runHandle("hs", p, w, "tags")
+					}
+				}
+			}
+		}
+	}
+	// ---- 8-byte length forms in every bytes / string field that a connection can carry
+	for _, name := range []string{"hello", "data", "multi", "multidev"} {
+		kind := "hr"
+		if name == "hello" {
+			kind = "hs"
+		}
+		plain := plainBytes(pk[name]())
+		for _, x := range wide8(plain, 46) {
+			runHandle(kind, none, x, "len64")
 		}
 	}
 	// ---- the JSON view of a Session filled from hostile registration data (modelled)
